@@ -5,6 +5,11 @@
 //
 // When no scheduler is active (S == nil) the shims run in pass-through mode: single-threaded,
 // no schedule points; used by the sequential (Mode S) checks.
+//
+// Race-mode discipline (C17, build with -race): every function of this package and of the shim
+// packages is //go:norace, never uses closures, maps, copy() or slice growth on state that several
+// threads touch, and brackets every baton hand-off with runtime.RaceDisable/RaceEnable, so that the
+// race detector sees exactly the happens-before edges the program under test creates itself.
 package vrt
 
 import (
@@ -26,6 +31,7 @@ const (
 	KTimer              // eager clock: fire the earliest timer now although threads can run (alt 1 = fire; costs a preemption)
 )
 
+//go:norace
 func (k Kind) String() string {
 	return [...]string{"thread", "env", "op", "select", "clock", "timer"}[k]
 }
@@ -36,10 +42,24 @@ type Chooser interface {
 	Choose(kind Kind, n int, preemptive bool) int
 }
 
+// Enabler is the enabledness predicate of a pending operation (nil = always enabled). It is an
+// interface rather than a func so that shims can implement it with //go:norace methods.
+type Enabler interface{ Enabled() bool }
+
+// EnablerFunc adapts a closure (harness use only; not race-clean).
+type EnablerFunc func() bool
+
+// Enabled implements Enabler.
+func (f EnablerFunc) Enabled() bool { return f() }
+
 // choose asks the chooser and folds the answer into the choosing thread's history where the
 // choice is made by a thread (op/env/select); thread and clock choices are scheduling decisions.
+//
+//go:norace
 func (s *Sched) choose(kind Kind, n int, preemptive bool, from *Thread) int {
-	s.curKey = s.StateKey(kind, from)
+	if !RaceMode {
+		s.curKey = s.StateKey(kind, from)
+	}
 	k := s.chooser.Choose(kind, n, preemptive)
 	if s.abandoned {
 		if (kind == KOp || kind == KEnv || kind == KSelect) && !s.inCtl {
@@ -61,12 +81,16 @@ func (s *Sched) choose(kind Kind, n int, preemptive bool, from *Thread) int {
 
 // Abandon may be called by the chooser from inside Choose: the execution ends at this choice point
 // (its continuation is known to be covered by an earlier execution).
+//
+//go:norace
 func (s *Sched) Abandon() {
 	s.abandoned = true
 	s.res.Abandoned = true
 }
 
 // CurKey is the state key of the choice point being answered (valid inside Chooser.Choose).
+//
+//go:norace
 func (s *Sched) CurKey() uint64 { return s.curKey }
 
 type abortT struct{}
@@ -78,14 +102,17 @@ type Thread struct {
 	ID     int
 	Label  string
 	resume chan struct{}
-	en     func() bool // enabled predicate of the pending operation; nil while running
-	desc   string      // description of the pending operation
-	obj    any
+	en     Enabler // enabled predicate of the pending operation; nil = always enabled
+	pend   bool    // a pending operation exists
+	desc   string  // description of the pending operation
 	done   bool
 	waitQ  bool // pending op is WaitQuiescent
 	parked bool
 	exited chan struct{}
 	Parent *Thread
+	f      func()
+	sched  *Sched
+	ra     RaceAddr // end-of-thread -> Join edge
 	// happens-before hashing (state caching in the explorer)
 	stable uint64 // identity that does not depend on the interleaving
 	last   uint64 // hash of the thread's latest event (its whole causal past)
@@ -93,22 +120,35 @@ type Thread struct {
 	nspawn uint64
 }
 
+//go:norace
 func (t *Thread) String() string {
-	if t.Label != "" {
+	if t.Label != "" && !RaceMode {
 		return fmt.Sprintf("T%d(%s)", t.ID, t.Label)
 	}
 	return fmt.Sprintf("T%d", t.ID)
 }
 
 // Done reports whether the thread function has returned.
+//
+//go:norace
 func (t *Thread) Done() bool { return t.done }
 
 // Pending describes the operation the thread is parked at ("" when running or done).
+//
+//go:norace
 func (t *Thread) Pending() string {
-	if t.done || t.en == nil {
+	if t.done || !t.pend {
 		return ""
 	}
 	return t.desc
+}
+
+//go:norace
+func (t *Thread) enabled() bool {
+	if !t.pend {
+		return false
+	}
+	return t.en == nil || t.en.Enabled()
 }
 
 // Step is one entry of the labelled trace.
@@ -178,6 +218,8 @@ type Event struct {
 }
 
 // LogEvent appends to the event log (no-op in pass-through mode or when events are off).
+//
+//go:norace
 func LogEvent(kind string, s string, a ...int) {
 	sc := S
 	if sc == nil || !sc.cfg.Events {
@@ -190,20 +232,33 @@ func LogEvent(kind string, s string, a ...int) {
 	sc.events = append(sc.events, Event{Seq: len(sc.events), Thread: tid, Kind: kind, A: append([]int(nil), a...), S: s})
 }
 
+// EventsOn reports whether the event log is kept (shims skip building arguments otherwise).
+//
+//go:norace
+func EventsOn() bool { return S != nil && S.cfg.Events }
+
 // Events returns the event log of the execution.
+//
+//go:norace
 func (s *Sched) Events() []Event { return s.events }
 
 // S is the active scheduler; nil means pass-through mode.
 var S *Sched
 
 // Active reports whether code is running under the scheduler.
+//
+//go:norace
 func Active() bool { return S != nil }
 
 // EnvHook answers environment choices in pass-through mode (nil => always 0).
 var EnvHook func(n int) int
 
+const maxThreads = 64
+
 // Run executes main as thread 0 under a fresh scheduler and returns when the execution ended and
 // every thread has been unwound.
+//
+//go:norace
 func Run(ch Chooser, cfg Config, main func()) *Result {
 	if S != nil {
 		panic("vrt.Run: nested")
@@ -211,12 +266,17 @@ func Run(ch Chooser, cfg Config, main func()) *Result {
 	if cfg.MaxSteps == 0 {
 		cfg.MaxSteps = 20000
 	}
-	s := &Sched{cfg: cfg, chooser: ch, endCh: make(chan struct{}, 1), res: &Result{}, objLast: map[any]uint64{}}
+	s := &Sched{cfg: cfg, chooser: ch, endCh: make(chan struct{}, 1), res: &Result{}}
+	s.threads = make([]*Thread, 0, maxThreads)
+	s.timers = make([]*Timer, 0, maxThreads)
+	if !RaceMode {
+		s.objLast = map[any]uint64{}
+	}
 	S = s
 	t0 := s.newThread(main)
 	t0.Label = "main"
 	s.cur = t0
-	t0.en = nil
+	t0.pend = false
 	t0.parked = false
 	raceHandoffOut()
 	t0.resume <- struct{}{}
@@ -242,9 +302,13 @@ func Run(ch Chooser, cfg Config, main func()) *Result {
 	return s.res
 }
 
+//go:norace
 func (s *Sched) newThread(f func()) *Thread {
-	t := &Thread{ID: len(s.threads), resume: make(chan struct{}, 1), exited: make(chan struct{}, 1)}
-	t.en = alwaysEnabled
+	if len(s.threads) >= maxThreads {
+		panic("vrt: too many threads")
+	}
+	t := &Thread{ID: len(s.threads), resume: make(chan struct{}, 1), exited: make(chan struct{}, 1), f: f, sched: s}
+	t.pend = true
 	t.desc = "start"
 	t.parked = true
 	if p := s.cur; p != nil && len(s.threads) > 0 && !s.inCtl {
@@ -255,14 +319,17 @@ func (s *Sched) newThread(f func()) *Thread {
 		t.stable = mix(mix(0x9e3779b97f4a7c15, s.global), uint64(len(s.threads)))
 	}
 	t.last = t.stable
-	s.threads = append(s.threads, t)
-	raceSpawn(func() { s.threadMain(t, f) })
+	s.threads = append(s.threads, t) // within the preallocated capacity: no growth
+	go t.main()
 	return t
 }
 
-func alwaysEnabled() bool { return true }
-
-func (s *Sched) threadMain(t *Thread, f func()) {
+// main is the goroutine body of a thread.
+//
+//go:norace
+func (t *Thread) main() {
+	s := t.sched
+	raceHandoffOut() // ignore synchronisation events until the baton arrives
 	<-t.resume
 	raceHandoffIn()
 	if s.aborting {
@@ -271,44 +338,52 @@ func (s *Sched) threadMain(t *Thread, f func()) {
 		t.exited <- struct{}{}
 		return
 	}
-	t.en = nil
+	t.pend = false
 	t.parked = false
-	defer func() {
-		r := recover()
-		t.done = true
-		t.en = nil
-		if !s.aborting {
-			s.objLast[t] = mix(s.objLast[t], t.last)
-		}
-		if s.aborting {
-			raceHandoffOut()
-			t.exited <- struct{}{}
-			return
-		}
-		if r != nil && r != any(abortSentinel) {
-			if s.res.Panic == "" {
-				s.res.Panic = fmt.Sprintf("%v\n%s", r, trimStack(string(debug.Stack())))
-			}
-			s.finish()
-			return
-		}
-		if t.ID == 0 {
-			s.finish()
-			return
-		}
-		// ordinary thread end: hand the baton on
-		next := s.pickNext(nil)
-		if next == nil {
-			s.finish()
-			return
-		}
-		s.cur = next
-		raceHandoffOut()
-		next.resume <- struct{}{}
-	}()
-	f()
+	defer t.exit()
+	t.f()
 }
 
+// exit is the deferred epilogue of a thread (it must call recover itself).
+//
+//go:norace
+func (t *Thread) exit() {
+	r := recover()
+	s := t.sched
+	t.done = true
+	t.pend = false
+	if s.aborting {
+		raceHandoffOut()
+		t.exited <- struct{}{}
+		return
+	}
+	t.ra.Release()
+	if !RaceMode {
+		s.objLast[t] = mix(s.objLast[t], t.last)
+	}
+	if r != nil && r != any(abortSentinel) {
+		if s.res.Panic == "" {
+			s.res.Panic = fmt.Sprintf("%v\n%s", r, trimStack(string(debug.Stack())))
+		}
+		s.finish()
+		return
+	}
+	if t.ID == 0 {
+		s.finish()
+		return
+	}
+	// ordinary thread end: hand the baton on
+	next := s.pickNext(nil)
+	if next == nil {
+		s.finish()
+		return
+	}
+	s.cur = next
+	raceHandoffOut()
+	next.resume <- struct{}{}
+}
+
+//go:norace
 func trimStack(st string) string {
 	lines := strings.Split(st, "\n")
 	if len(lines) > 40 {
@@ -318,23 +393,27 @@ func trimStack(st string) string {
 }
 
 // finish ends the execution: wakes Run, which unwinds the rest. The calling goroutine must return
-// (or park) right after.
+// (or park) right after. It leaves the goroutine with race synchronisation events disabled.
+//
+//go:norace
 func (s *Sched) finish() {
+	raceHandoffOut()
 	if s.ended {
 		return
 	}
 	s.ended = true
-	raceHandoffOut()
 	s.endCh <- struct{}{}
 }
 
 // Point is a schedule point of the running thread: the pending operation is described by desc and
-// is enabled when en() is true. Point returns when the thread has been chosen to run and en()
-// holds (evaluated in the same atomic step).
-func Point(desc string, en func() bool, objs ...any) {
+// is enabled when en.Enabled() is true (nil = always). Point returns when the thread has been
+// chosen to run and the predicate holds (evaluated in the same atomic step).
+//
+//go:norace
+func Point(desc string, en Enabler, objs ...any) {
 	s := S
 	if s == nil {
-		if en != nil && !en() {
+		if en != nil && !en.Enabled() {
 			panic("vrt: operation would block in pass-through mode: " + desc)
 		}
 		return
@@ -342,6 +421,7 @@ func Point(desc string, en func() bool, objs ...any) {
 	s.point(desc, en, objs)
 }
 
+//go:norace
 func mix(a, b uint64) uint64 {
 	x := a ^ (b + 0x9e3779b97f4a7c15 + (a << 6) + (a >> 2))
 	x ^= x >> 33
@@ -355,7 +435,12 @@ func mix(a, b uint64) uint64 {
 // event folds one executed visible operation of t on objs into the happens-before hashes: the
 // event's hash covers the thread's previous event and the latest event on every object it touches
 // (all operations on one object are treated as dependent).
+//
+//go:norace
 func (s *Sched) event(t *Thread, objs []any) {
+	if RaceMode {
+		return
+	}
 	t.nev++
 	h := mix(mix(t.stable, t.nev), t.last)
 	h = mix(h, s.global)
@@ -374,9 +459,11 @@ func (s *Sched) event(t *Thread, objs []any) {
 
 // Touch records a non-point effect of the running thread on obj (a release: Unlock, Done, a close
 // performed inside another operation): later operations on obj depend on the thread's latest event.
+//
+//go:norace
 func Touch(obj any) {
 	s := S
-	if s == nil || obj == nil {
+	if s == nil || obj == nil || RaceMode {
 		return
 	}
 	if s.inCtl {
@@ -388,7 +475,9 @@ func Touch(obj any) {
 	}
 }
 
-// Fold mixes a value the running thread obtained from its environment (a choice) into its history.
+// fold mixes a value the running thread obtained from its environment (a choice) into its history.
+//
+//go:norace
 func (s *Sched) fold(v uint64) {
 	if t := s.cur; t != nil && !s.inCtl {
 		t.nev++
@@ -397,6 +486,8 @@ func (s *Sched) fold(v uint64) {
 }
 
 // globalEvent makes every later event depend on everything that happened so far (timer firing).
+//
+//go:norace
 func (s *Sched) globalEvent(tag uint64) {
 	g := mix(s.global, tag)
 	for _, t := range s.threads {
@@ -408,9 +499,10 @@ func (s *Sched) globalEvent(tag uint64) {
 // StateKey identifies the global state at a choice point up to commutation of independent
 // operations: the causal histories of all threads, which thread holds the baton, and the kind of
 // choice being made.
+//
+//go:norace
 func (s *Sched) StateKey(kind Kind, from *Thread) uint64 {
-	var hs [16]uint64
-	l := hs[:0]
+	var sum, xor uint64
 	for _, t := range s.threads {
 		v := mix(t.stable, t.last)
 		if t.done {
@@ -419,11 +511,7 @@ func (s *Sched) StateKey(kind Kind, from *Thread) uint64 {
 		if t.waitQ {
 			v = mix(v, 2)
 		}
-		l = append(l, v)
-	}
-	// order-independent combination over threads keyed by their stable ids (already mixed in)
-	var sum, xor uint64
-	for _, v := range l {
+		// order-independent combination over threads keyed by their stable ids (already mixed in)
 		sum += v
 		xor ^= mix(v, 0x1234567)
 	}
@@ -437,9 +525,10 @@ func (s *Sched) StateKey(kind Kind, from *Thread) uint64 {
 	return mix(k, uint64(s.clock))
 }
 
-func (s *Sched) point(desc string, en func() bool, objs []any) {
+//go:norace
+func (s *Sched) point(desc string, en Enabler, objs []any) {
 	if s.inCtl {
-		if en != nil && !en() {
+		if en != nil && !en.Enabled() {
 			panic(ctlBlocked{desc})
 		}
 		return
@@ -448,10 +537,8 @@ func (s *Sched) point(desc string, en func() bool, objs []any) {
 		panic(abortSentinel)
 	}
 	t := s.cur
-	if en == nil {
-		en = alwaysEnabled
-	}
 	t.en = en
+	t.pend = true
 	t.desc = desc
 	next := s.pickNext(t)
 	if next != t {
@@ -471,6 +558,7 @@ func (s *Sched) point(desc string, en func() bool, objs []any) {
 		}
 	}
 	t.en = nil
+	t.pend = false
 	if t.waitQ {
 		t.waitQ = false
 		s.globalEvent(7)
@@ -485,6 +573,8 @@ type ctlBlocked struct{ desc string }
 
 // pickNext decides which thread runs next. from is the thread that has just parked (nil if the
 // caller is finishing). Returns nil when the execution is over (stuck or capped).
+//
+//go:norace
 func (s *Sched) pickNext(from *Thread) *Thread {
 	for {
 		if s.abandoned {
@@ -495,40 +585,43 @@ func (s *Sched) pickNext(from *Thread) *Thread {
 			s.res.Capped = true
 			return nil
 		}
-		var opts [16]*Thread
-		en := opts[:0]
-		if from != nil && !from.done && !from.waitQ && from.en != nil && from.en() {
-			en = append(en, from)
+		var opts [maxThreads]*Thread
+		n := 0
+		if from != nil && !from.done && !from.waitQ && from.enabled() {
+			opts[n] = from
+			n++
 		}
-		preemptive := len(en) == 1
+		preemptive := n == 1
 		for _, t := range s.threads {
-			if t == from || t.done || t.en == nil || t.waitQ {
+			if t == from || t.done || !t.pend || t.waitQ {
 				continue
 			}
-			if t.en() {
-				en = append(en, t)
+			if t.enabled() {
+				opts[n] = t
+				n++
 			}
 		}
-		clockOpt := false
-		if s.cfg.EagerClock && len(en) > 0 && s.timerPending() {
-			clockOpt = true
-		}
-		if len(en) == 0 {
+		if n == 0 {
 			// quiescent: nothing can run
 			s.quiesces++
 			if s.cfg.OnQuiescent != nil {
-				s.ctl(func() { s.cfg.OnQuiescent(s) })
+				old := s.inCtl
+				s.inCtl = true
+				s.cfg.OnQuiescent(s)
+				s.inCtl = old
 			}
-			var qw []*Thread
+			var qw [maxThreads]*Thread
+			nq := 0
 			for _, t := range s.threads {
 				if !t.done && t.waitQ {
-					qw = append(qw, t)
+					qw[nq] = t
+					nq++
 				}
 			}
-			if len(qw) > 0 {
+			if nq > 0 {
 				k := 0
-				if len(qw) > 1 {
-					k = s.choose(KThread, len(qw), false, from)
+				if nq > 1 {
+					k = s.choose(KThread, nq, false, from)
 					if s.abandoned {
 						return nil
 					}
@@ -548,7 +641,7 @@ func (s *Sched) pickNext(from *Thread) *Thread {
 			}
 			return nil
 		}
-		if clockOpt {
+		if s.cfg.EagerClock && s.timerPending() {
 			// eager clock: a pending timer may expire now, while threads can still run
 			if s.choose(KTimer, 2, true, from) == 1 {
 				if s.abandoned {
@@ -561,7 +654,6 @@ func (s *Sched) pickNext(from *Thread) *Thread {
 				return nil
 			}
 		}
-		n := len(en)
 		k := 0
 		if n > 1 {
 			k = s.choose(KThread, n, preemptive, from)
@@ -569,19 +661,13 @@ func (s *Sched) pickNext(from *Thread) *Thread {
 				return nil
 			}
 		}
-		return en[k]
+		return opts[k]
 	}
 }
 
-// ctl runs f in controller context: shim operations pass straight through.
-func (s *Sched) ctl(f func()) {
-	old := s.inCtl
-	s.inCtl = true
-	defer func() { s.inCtl = old }()
-	f()
-}
-
 // Go starts f as a new thread.
+//
+//go:norace
 func Go(f func()) *Thread {
 	s := S
 	if s == nil {
@@ -598,6 +684,8 @@ func Go(f func()) *Thread {
 }
 
 // GoL starts a labelled thread.
+//
+//go:norace
 func GoL(label string, f func()) *Thread {
 	t := Go(f)
 	t.Label = label
@@ -605,6 +693,8 @@ func GoL(label string, f func()) *Thread {
 }
 
 // Self returns the running thread (nil in pass-through mode).
+//
+//go:norace
 func Self() *Thread {
 	if S == nil {
 		return nil
@@ -613,6 +703,8 @@ func Self() *Thread {
 }
 
 // SetLabel labels the running thread.
+//
+//go:norace
 func SetLabel(l string) {
 	if S != nil && S.cur != nil {
 		S.cur.Label = l
@@ -620,17 +712,28 @@ func SetLabel(l string) {
 }
 
 // Yield is a plain schedule point.
+//
+//go:norace
 func Yield() { Point("yield", nil) }
 
+type threadDone Thread
+
+//go:norace
+func (t *threadDone) Enabled() bool { return t.done }
+
 // Join blocks until all given threads have finished.
+//
+//go:norace
 func Join(ts ...*Thread) {
 	for _, t := range ts {
-		t := t
-		Point("join "+t.String(), func() bool { return t.done }, t)
+		Point("join", (*threadDone)(t), t)
+		t.ra.Acquire()
 	}
 }
 
 // WaitQuiescent parks the caller until no other thread is enabled (pending timers do not count).
+//
+//go:norace
 func WaitQuiescent() {
 	s := S
 	if s == nil {
@@ -644,10 +747,12 @@ func WaitQuiescent() {
 	}
 	t := s.cur
 	t.waitQ = true
-	s.point("wait-quiescent", alwaysEnabled, nil)
+	s.point("wait-quiescent", nil, nil)
 }
 
 // Choose is a harness-level nondeterministic choice in [0,n).
+//
+//go:norace
 func Choose(n int) int {
 	if n <= 1 {
 		return 0
@@ -659,6 +764,8 @@ func Choose(n int) int {
 }
 
 // ChooseSelect picks among n ready select cases.
+//
+//go:norace
 func ChooseSelect(n int) int {
 	if n <= 1 || S == nil {
 		return 0
@@ -667,6 +774,8 @@ func ChooseSelect(n int) int {
 }
 
 // EnvChoose is an environment answer in [0,n); alternatives > 0 cost a deviation.
+//
+//go:norace
 func EnvChoose(n int) int {
 	if n <= 1 {
 		return 0
@@ -681,12 +790,18 @@ func EnvChoose(n int) int {
 }
 
 // Aborting reports whether the execution is being unwound (shims turn into no-ops).
+//
+//go:norace
 func Aborting() bool { return S != nil && S.aborting }
 
 // InCtl reports controller context.
+//
+//go:norace
 func InCtl() bool { return S != nil && S.inCtl }
 
 // NextObjID hands out small per-execution object ids for trace descriptions.
+//
+//go:norace
 func NextObjID() int {
 	if S == nil {
 		return 0
@@ -696,19 +811,27 @@ func NextObjID() int {
 }
 
 // Threads returns the threads of the active execution.
+//
+//go:norace
 func (s *Sched) Threads() []*Thread { return s.threads }
 
 // Clock returns the virtual clock in ns.
+//
+//go:norace
 func (s *Sched) Clock() int64 { return s.clock }
 
 // Quiesces returns how many quiescent states were seen.
+//
+//go:norace
 func (s *Sched) Quiesces() int { return s.quiesces }
 
 // Blocked lists the parked, not-enabled threads (label: pending op), sorted.
+//
+//go:norace
 func (s *Sched) Blocked() []string {
 	var out []string
 	for _, t := range s.threads {
-		if !t.done && t.en != nil && !t.waitQ && !t.en() {
+		if !t.done && t.pend && !t.waitQ && !t.enabled() {
 			out = append(out, t.String()+": "+t.desc)
 		}
 	}
@@ -717,16 +840,25 @@ func (s *Sched) Blocked() []string {
 }
 
 // TryCtl runs f in controller context and reports false if a shim operation would have blocked.
+//
+//go:norace
 func (s *Sched) TryCtl(f func()) (ok bool) {
-	defer func() {
-		if r := recover(); r != nil {
-			if _, is := r.(ctlBlocked); is {
-				ok = false
-				return
-			}
-			panic(r)
+	old := s.inCtl
+	s.inCtl = true
+	ok = true
+	defer s.tryCtlEnd(old, &ok)
+	f()
+	return ok
+}
+
+//go:norace
+func (s *Sched) tryCtlEnd(old bool, ok *bool) {
+	s.inCtl = old
+	if r := recover(); r != nil {
+		if _, is := r.(ctlBlocked); is {
+			*ok = false
+			return
 		}
-	}()
-	s.ctl(f)
-	return true
+		panic(r)
+	}
 }
